@@ -196,6 +196,11 @@ o P1 240117#KY todo in part @c1
 
 x 240118#L0 done in the second headless h2
 """,
+    # a page with a single note whose tags and links were first seen in non-alphabetical order
+    "solo.zo": """# SOLO
+
+- 240320#S9 lonely note #zeta #alpha #mid [[zz]] [[aa]] @zc @ac
+""",
     "jazz.zo": """# JAZZ
 
 x 240116#KV done in jazz
